@@ -18,6 +18,7 @@ impl<F: Fam> Ctx<F> {
         self.stats.ops += 1;
         *self.stats.by_op.entry(op.name()).or_insert(0) += 1;
         let before = self.stats.phase[1] + self.stats.phase[2];
+        legit_clear();
         let r = self.step_inner(op);
         if self.stats.phase[1] + self.stats.phase[2] > before {
             self.stats.ops_at_l += 1;
@@ -721,6 +722,7 @@ impl<F: Fam> Ctx<F> {
             let k = F::K::mk(kk);
             let val = F::V::mk(*v);
             desc.push((kk, k.id(), *v, val.id()));
+            legit_push(kk, ME { kid: k.id(), v: *v, vid: val.id() });
             objs.push((k, val));
         }
         (objs, desc)
@@ -805,7 +807,8 @@ impl<F: Fam> Ctx<F> {
             hlog_start();
             let dmap = &mut d.map;
             let smap = &sref.map;
-            let (r, al) = window(|| std::panic::catch_unwind(std::panic::AssertUnwindSafe(|| dmap.clone_from(smap))));
+            let armed = self.arm.is_some();
+            let (r, al) = window(|| fcall(armed, || dmap.clone_from(smap)));
             let _ = hlog_stop();
             panic_quiet(prevq);
             self.meta[dst].live += al.allocs as i64 - al.deallocs as i64;
@@ -818,7 +821,8 @@ impl<F: Fam> Ctx<F> {
             let prevq = panic_quiet(true);
             let _ = take_last_panic();
             let smap = &self.slots[src].map;
-            let (r, al) = window(|| std::panic::catch_unwind(std::panic::AssertUnwindSafe(|| smap.clone())));
+            let armed = self.arm.is_some();
+            let (r, al) = window(|| fcall(armed, || smap.clone()));
             panic_quiet(prevq);
             let c = match r {
                 Ok(c) => c,
@@ -887,7 +891,8 @@ impl<F: Fam> Ctx<F> {
         }
         let prevq = panic_quiet(true);
         let smap = &self.slots[src].map;
-        let (r, al) = window(|| std::panic::catch_unwind(std::panic::AssertUnwindSafe(|| smap.clone())));
+        let armed = self.arm.is_some();
+            let (r, al) = window(|| fcall(armed, || smap.clone()));
         panic_quiet(prevq);
         let c = match r {
             Ok(c) => c,
@@ -921,10 +926,20 @@ impl<F: Fam> Ctx<F> {
             let b: Vec<(u32, u32)> = self.slots[1].model.iter().map(|(k, e)| (*k, e.v)).collect();
             a == b
         };
-        let ab = self.slots[0].map == self.slots[1].map;
-        let ba = self.slots[1].map == self.slots[0].map;
-        let aa = self.slots[0].map == self.slots[0].map;
-        let bb = self.slots[1].map == self.slots[1].map;
+        let armed = self.arm.is_some();
+        let prevq = panic_quiet(true);
+        let r = {
+            let (a, b) = (&self.slots[0].map, &self.slots[1].map);
+            fcall(armed, || (*a == *b, *b == *a, *a == *a, *b == *b))
+        };
+        panic_quiet(prevq);
+        let (ab, ba, aa, bb) = match r {
+            Ok(x) => x,
+            Err(_) => {
+                let (msg, loc) = take_last_panic().unwrap_or_default();
+                fail!(self, [C14], "unexpected-panic", "== panicked: {} at {}", msg, norm_loc(&loc));
+            }
+        };
         if ab != want || ba != want || !aa || !bb {
             fail!(self, [C14], "eq", "a==b: {}, b==a: {}, a==a: {}, b==b: {}; references equal: {}", ab, ba, aa, bb, want);
         }
